@@ -181,11 +181,13 @@ PROPERTIES = {
              'specialisation pass (incl. the variant loop that uses the predicate) and the runtime library are not covered',
   },
   'C04': {
-    'verus': ['opsem', 'oparms', 'wasmlower'],
+    'verus': ['opsem', 'oparms', 'wasmlower', 'strconst'],
     'kani': ['wasmops'],
     'level': 'proof',
-    'scope': 'one kernel only: per operator, the TypeScript template and the WebAssembly instruction emitted by the two real '
-             'printers denote the same function on non-excluded operands; runtime libraries, string constants, Vec are not covered',
+    'scope': 'two kernels only: per operator, the TypeScript template and the WebAssembly instruction emitted by the two real '
+             'printers denote the same function on non-excluded operands; string constants: what each back end emits for a '
+             'constant (raw text between backticks / hex-escaped UTF-8 bytes with offset and length) and what that denotes; '
+             'runtime libraries (libsam.wat, TS prolog) and Vec are not covered',
   },
   'C06': {
     'verus': ['litgate', 'errgate'],
@@ -263,6 +265,10 @@ STANDING_ASSUMPTIONS = {
     'the induction variable is compared over mathematical integers; the in-range clause makes that equal to the wrapping run',
   ],
   'algebra': ['Verus/Z3 nonlinear arithmetic; vstd specs of i32::wrapping_mul / wrapping_add'],
+  'strconst': ['Verus/Z3; JavaScript template-literal value (ECMA-262 12.9.6, escapes \\x \\u octal and line continuation unmodelled = None), '
+               'WebAssembly text string literals (spec 6.3.3) and loader.js (one UTF-16 code unit per byte) are modelled by spec functions; '
+               'UTF-8 of ASCII text = its codes (axiom); u8::is_ascii_alphanumeric by its documented definition; i.to_string() opaque (R3); '
+               'the loops around the two R14 blocks (enumerate) and the printing of offset / length are outside the blocks'],
   'errgate': ['Verus/Z3; vstd specification of std BTreeSet (new / insert / is_empty); the derived Ord of CompileTimeError is assumed to '
               'be a total order (obeys_cmp); BTreeSet::extend = union (R3); Location, ErrorDetail opaque; everything compile_sources does '
               'around the gate is outside the block (R14)'],
